@@ -2,10 +2,16 @@ use crate::codec::Codec;
 use crate::frame::Ping;
 use crate::proto::{self, PingPayload};
 
+#[cfg(not(feature = "verif"))]
 use atomic_waker::AtomicWaker;
+#[cfg(feature = "verif")]
+use crate::verif::{AtomicUsize, AtomicWaker};
 use bytes::Buf;
 use std::io;
+#[cfg(not(feature = "verif"))]
 use std::sync::atomic::{AtomicUsize, Ordering};
+#[cfg(feature = "verif")]
+use std::sync::atomic::Ordering;
 use std::sync::Arc;
 use std::task::{Context, Poll};
 use tokio::io::AsyncWrite;
